@@ -72,6 +72,127 @@ func probeGetReference(rep *Report) {
 	}
 }
 
+// probeCopyToUncounted: the store CopyTo returns shares the source's Items but is created without the source's
+// callbacks, so it holds them without a counted reference (C15): when the source lets go of an item (its visit leaves the
+// node), the count reaches zero although the item is still reachable from the destination's open collection, and an
+// allocator that recycles buffers at zero hands the destination's key and value to the next item.
+func probeCopyToUncounted(rep *Report) {
+	rc := NewRefCounter()
+	w := &World{Timeout: 10e9}
+	res := w.guard(func() string {
+		mf := NewMemFile()
+		cb := rc.callbacks(gkvlite.StoreCallbacks{})
+		s, _ := gkvlite.NewStoreEx(mf, cb)
+		c := s.SetCollection("c", nil)
+		c.SetItem(&gkvlite.Item{Key: []byte("key"), Val: []byte("value"), Priority: 1})
+		if err := s.Flush(); err != nil {
+			return "flush: " + err.Error()
+		}
+		s.Close()
+		s, err := gkvlite.NewStoreEx(mf, cb)
+		if err != nil {
+			return "reopen: " + err.Error()
+		}
+		dst, err := s.CopyTo(NewMemFile(), 0)
+		if err != nil {
+			return "copyto: " + err.Error()
+		}
+		var got string
+		dst.GetCollection("c").VisitItemsAscend(nil, true, func(i *gkvlite.Item) bool {
+			rc.mu.Lock()
+			n := rc.cnt[i]
+			rc.mu.Unlock()
+			if n <= 0 || string(i.Key) != "key" || string(i.Val) != "value" {
+				got = fmt.Sprintf("the destination's collection reaches an item with count %d (key %q, value %q after recycling)", n, i.Key, i.Val)
+			}
+			return true
+		})
+		return got
+	})
+	rep.Evaluations++
+	if res != "" {
+		rep.Violation("copyto-destination-uncounted", false, map[string]interface{}{"observed": res,
+			"expected": "every item reachable from the open destination store has a positive count (and its key \"key\", value \"value\")",
+			"history": []string{"SetItem(key)", "Flush()", "re-open with counting callbacks", "CopyTo(dst, 0)", "visit dst"}})
+	}
+}
+
+// probeBigRootRecord: a store with so many collections (long names) that its root record exceeds 64 KiB: Flush and
+// re-open must show every name and item (C02, C12); then most collections are removed again (a small root record after a
+// large one) and the state must again be durable.
+func probeBigRootRecord(rep *Report, prop string) {
+	w := &World{Timeout: 60e9}
+	res := w.guard(func() string {
+		mf := NewMemFile()
+		s, err := gkvlite.NewStore(mf)
+		if err != nil {
+			return "open: " + err.Error()
+		}
+		var names []string
+		for i := 0; i < 1300; i++ {
+			names = append(names, fmt.Sprintf("collection-with-a-rather-long-name-%05d-%s", i, "xxxxxxxxxx"))
+		}
+		for i, n := range names {
+			c := s.SetCollection(n, nil)
+			if i%100 == 0 {
+				c.SetItem(&gkvlite.Item{Key: []byte("k"), Val: []byte(n), Priority: int32(i)})
+			}
+		}
+		check := func(img []byte, want []string) string {
+			s2, err := gkvlite.NewStore(NewMemFileFrom(img))
+			if err != nil {
+				return "re-open: " + err.Error()
+			}
+			got := s2.GetCollectionNames()
+			if len(got) != len(want) {
+				return fmt.Sprintf("%d collection names after re-open, %d flushed (file of %d bytes)", len(got), len(want), len(img))
+			}
+			for i := range got {
+				if got[i] != want[i] {
+					return fmt.Sprintf("name %d after re-open: %q, flushed: %q", i, got[i], want[i])
+				}
+			}
+			for i := 0; i < len(want); i += 100 {
+				if v, err := s2.GetCollection(want[i]).Get([]byte("k")); err != nil || (v != nil && string(v) != want[i]) {
+					return fmt.Sprintf("item of collection %q after re-open: %q %v", want[i], v, err)
+				}
+			}
+			return ""
+		}
+		if err := s.Flush(); err != nil {
+			return "flush: " + err.Error()
+		}
+		if r := check(mf.Bytes(), names); r != "" {
+			return "after a Flush of 1300 collections: " + r
+		}
+		for _, n := range names[3:] {
+			s.RemoveCollection(n)
+		}
+		if err := s.Flush(); err != nil {
+			return "flush: " + err.Error()
+		}
+		if r := check(mf.Bytes(), names[:3]); r != "" {
+			return "after removing all but 3 collections and a Flush: " + r
+		}
+		if err := s.FlushRevert(); err != nil {
+			return "revert: " + err.Error()
+		}
+		if got := s.GetCollectionNames(); len(got) != len(names) {
+			return fmt.Sprintf("after FlushRevert to the Flush of 1300 collections: %d names", len(got))
+		}
+		if r := check(mf.Bytes(), names); r != "" {
+			return "after FlushRevert to the Flush of 1300 collections: " + r
+		}
+		return ""
+	})
+	rep.Evaluations++
+	if res != "" {
+		rep.Violation("", false, map[string]interface{}{"observed": res, "property_checked": prop,
+			"expected":  "the names and items of the last Flush after re-opening, whatever the size of the root record",
+			"history":   []string{"SetCollection x1300 (names of 52 bytes)", "Flush", "re-open a copy", "RemoveCollection x1297", "Flush", "re-open a copy", "FlushRevert", "re-open a copy"}})
+	}
+}
+
 // probeValueIsRootRecord: a committed value that is itself a complete, self-consistent root record for the file
 // position it lands at makes FlushRevert stop at it (C08): the store comes back empty instead of in the state of
 // the previous Flush.  (C03 excludes such values explicitly; C08's statement does not.)  Witness found by proof:
